@@ -8,6 +8,7 @@ SPEC = dict(
     theorems=[T + n for n in [
         "powModNat_eq", "isPrime_iff",
         "quotient_mod_spec", "quotient_mod_f_spec", "mod_inverse_spec",
+        "gcdExt_fst", "gcdExt_bezout_degenerate_partial",
         "fib_spec", "fib2_spec", "lucas_spec", "factorial_spec", "binomial_spec", "binomial_neg_spec",
         "divides_spec",
         "pfm_spec", "pfm_total", "totient_spec", "carmichael_spec", "mobius_spec", "mertens_spec",
@@ -20,6 +21,7 @@ SPEC = dict(
         "is_nthroot_mod1_spec", "nthroot_zero_branch_partial",
     ]],
     partial=[
+        "gcdExt_bezout_degenerate_partial: Bezout identity of gcd_ext proved on the degenerate branches (|a|=|b|, a=0, b=0); generic branch spec-compared + Bezout oracle",
         "primitive_root_prime_partial: proved for prime moduli (least primitive root); p^k and 2p^k spec-compared",
         "nthroot_zero_branch_partial: one branch (a = 0 mod p^k, all roots) of _nthroot_mod_prime_power proved sound and complete",
         "nthroot_mod / nthroot_mod_list / is_nth_residue / is_quad_residue / powermod with rational exponent: "
